@@ -30,8 +30,8 @@ thread_local int depth = 0;
 thread_local std::vector<long>* tickets = nullptr;   // where the current operation records its sections
 thread_local const std::vector<int>* yields = nullptr;  // mode A perturbation: yields before the k-th section
 thread_local size_t section_no = 0;
-std::recursive_mutex real_mu;
-long ticket_counter = 0;              // protected by real_mu
+std::atomic<long> ticket_counter{0};
+std::atomic<int> mutex_instances{0};  // the library is expected to create one; every instance is a lock of its own
 
 // mode B scheduler
 bool sched_on = false;
@@ -42,6 +42,9 @@ int st[MAXT];
 int granted = -1;
 
 struct Mutex : trompeloeil::custom_recursive_mutex {
+  // one real lock per object the library asks for: two library mutexes must not exclude each other here either
+  std::recursive_mutex real_mu;
+  Mutex() { ++mutex_instances; }
   void lock() override {
     if (depth == 0 && tid >= 0) {
       if (yields && section_no < yields->size()) for (int i = 0; i < (*yields)[section_no]; ++i) std::this_thread::yield();
@@ -729,10 +732,7 @@ static RunResult run_program(const Program& p, bool sched_mode) {
   std::vector<std::vector<OpRec>> recs(static_cast<size_t>(p.nthreads) + 1);
   std::vector<int> slot_id(NSLOTS, -1);
   std::vector<int> mon_ids(MAXTH + 1, -1), own_ids(MAXTH + 1, -1);
-  {
-    std::lock_guard<std::recursive_mutex> g(shim::real_mu);
-    shim::ticket_counter = 0;
-  }
+  shim::ticket_counter = 0;   // no worker thread is running here
   // prologue on the main thread (tid -1)
   auto& prec = recs[static_cast<size_t>(p.nthreads)];
   prec.resize(p.prologue.size());
